@@ -69,6 +69,13 @@ theorem gen_dickson1 (n : ℕ) (al x : K) : Generated.C07.dickson1 (n : ℤ) al 
 /-- the translated body of `dickson2` (loop included) computes the model's `dickson2 n a x`, every `n` -/
 theorem gen_dickson2 (n : ℕ) (al x : K) : Generated.C07.dickson2 (n : ℤ) al x = dickson2 n al x := C07L.gen_dickson2 n al x
 
+/-- **the weight the library reports for the Jacobi family** (`prysm.polynomials.jacobi.weight`) is `(1−x)^α (1+x)^β` — α on the
+    factor `(1−x)`, β on `(1+x)` — for every `α, β, x` and any exponentiation function; this is the weight under which the
+    orthogonality statements `jacobi_orthogonal_full` are made and the harness runs its Gauss-quadrature tests -/
+theorem weight_def (rpow : K → K → K) (a b x : K) :
+    Generated.C07.weight rpow a b x = rpow (1 - x) a * rpow (1 + x) b := by
+  simp [Generated.C07.weight]
+
 /-- the bodies of `f_qbfs`, `g_qbfs`, `h_qbfs` (index plumbing included; recursive calls read as the model's functions) return
     the model's `f_k`, `g_k`, `h_k` for every `k` -/
 theorem gen_qbfs_fgh (sqrt : K → K) (k : ℕ) :
@@ -390,7 +397,7 @@ open scoped C07L
 /-- Jacobi polynomials of different degree are orthogonal under `(1−x)^α (1+x)^β` on `[−1,1]` — NOT PROVED -/
 def jacobi_orthogonal_full : Prop :=
   ∀ (n m : ℕ) (a b : ℝ), -1 < a → -1 < b → n ≠ m →
-    ∫ x in (-1:ℝ)..1, (1 - x) ^ a * (1 + x) ^ b * jacobi n a b x * jacobi m a b x = 0
+    ∫ x in (-1:ℝ)..1, Generated.C07.weight (fun u v => u ^ v) a b x * jacobi n a b x * jacobi m a b x = 0
 
 /-- orthonormal Zernike: `(1/π)∫∫ Z_n^m Z_n'^m' r dr dθ = δ`; radial part: `∫_0^1 R_n^m R_n'^m r dr = δ_{nn'}/(2(n+1))` — NOT PROVED -/
 def zernike_radial_orthogonal_full : Prop :=
@@ -408,6 +415,8 @@ def qbfs_slope_orthonormal_full : Prop :=
 end not_proved
 
 /-! ## non-vacuity -/
+example : Generated.C07.weight (fun u v : ℝ => u ^ v) 0 4 (1/2) = (1 - 1/2) ^ (0:ℝ) * (1 + 1/2) ^ (4:ℝ) := by
+  rw [C07.weight_def]
 example : ∃ s : ℝ, s * s = 2 := ⟨Real.sqrt 2, Real.mul_self_sqrt (by norm_num)⟩
 example : (-1 : ℚ) < -1/2 ∧ (-1 : ℚ) < 2.3 := by norm_num
 example : Generated.C07.jacobi (K := ℚ) 3 (1/2) (-9/10) (1/3) = Model.C07.jacobi 3 (1/2) (-9/10) (1/3) :=
